@@ -115,6 +115,12 @@ impl Integer {
         ensures r@ == ipow(self@, e as nat),
     { unimplemented!() }
 
+    /// rug::Integer::square
+    #[verifier::external_body]
+    pub fn square(self) -> (r: Integer)
+        ensures r@ == self@ * self@, r@ == ipow(self@, 2),
+    { unimplemented!() }
+
     /// None iff the exponent is negative and self is not invertible modulo n (or n == 0)
     #[verifier::external_body]
     pub fn pow_mod_ref(&self, e: &Integer, n: &Integer) -> (r: Option<Integer>)
@@ -268,6 +274,11 @@ int_binop_all!(Sub, sub, SubSpecImpl, obeys_sub_spec, sub_req, sub_spec, |a, b| 
 int_binop_all!(Mul, mul, MulSpecImpl, obeys_mul_spec, mul_req, mul_spec, |a, b| a * b);
 int_binop_all!(Rem, rem, RemSpecImpl, obeys_rem_spec, rem_req, rem_spec, |a, b| a % b);
 
+/// right-nested product -> left-nested (one direction only, so that it can be broadcast next to commutativity); proved, not assumed
+pub broadcast proof fn lemma_mul_assoc_left(x: int, y: int, z: int)
+    ensures #[trigger] (x * (y * z)) == (x * y) * z,
+{ assert(x * (y * z) == (x * y) * z) by (nonlinear_arith); }
+
 // ---- number-theory axioms (A-rug) -----------------------------------------------------------------------
 /// RSA / Euler: for N = p*q (distinct primes), gcd(x, N) = 1 and d = e^{-1} mod (p-1)(q-1):  (x^d)^e = x (mod N)
 pub proof fn ax_euler_rsa(x: int, e: int, p: int, q: int)
@@ -357,6 +368,20 @@ impl vstd::std_specs::ops::NegSpecImpl for Integer {
     uninterp spec fn neg_spec(self) -> Integer;
 }
 impl core::ops::Neg for Integer {
+    type Output = Integer;
+    #[verifier::external_body]
+    fn neg(self) -> (r: Integer)
+        ensures r@ == -self@,
+    { unimplemented!() }
+}
+
+impl<'a> vstd::std_specs::ops::NegSpecImpl for &'a Integer {
+    open spec fn obeys_neg_spec() -> bool { false }
+    open spec fn neg_req(self) -> bool { true }
+    uninterp spec fn neg_spec(self) -> Integer;
+}
+/// `-&a` (rug: an incomplete value, completed by Integer::from)
+impl<'a> core::ops::Neg for &'a Integer {
     type Output = Integer;
     #[verifier::external_body]
     fn neg(self) -> (r: Integer)
